@@ -9,9 +9,14 @@ open Librfn.Model.Fibre (K upd makeRunnable handleTimerq getNextTask fibreTimeou
 
 /-! ## FIFO dispatch: an uninterrupted pass dispatches the head of the run queue and appends at its tail -/
 
+/-- the two drain loops of the pass itself (not those of calls a scripted fibre body makes) -/
+def PreCont : Cont → Prop
+  | .pass1 | .pass2 _ => True
+  | _ => False
+
 def PrePop : MPc → Prop
   | .start (.next _) | .fast | .fastDone _ | .taintF | .taintFd => True
-  | .recv c | .recvd c | .rel c | .reld c => PassCont c
+  | .recv c | .recvd c | .rel c | .reld c => PreCont c
   | _ => False
 
 def PostPop : MPc → Prop
@@ -24,12 +29,105 @@ structure PI (c : Fid) (r : List Fid) (s : S) : Prop where
   pc : PrePop s.mpc ∨ PostPop s.mpc
   pre : PrePop s.mpc → ∃ l, s.k.runq = c :: (r ++ l)
   post : PostPop s.mpc → Tok.disp c ∈ s.trace ∧ ∃ l, s.k.runq = r ++ l
+  /-- the fibres dispatched call neither `fibre_run` nor `fibre_kill` -/
+  bs : s.bscript = []
 
 theorem mono_returned (s : S) (r : Ret) : ∀ x ∈ s.trace, x ∈ (returned s r).trace := by
   intro x hx
   unfold returned; split
   · exact List.mem_append_left _ hx
   · exact List.mem_append_left _ hx
+
+theorem mono_bodyStep (s : S) : ∀ x ∈ s.trace, x ∈ (bodyStep s).trace := by
+  intro x hx
+  unfold bodyStep; split
+  · exact mono_returned _ _ x hx
+  · exact hx
+  · exact hx
+
+/-! with no scripted calls left, a dispatch ends the pass (or enters the handler) -/
+theorem bs_returned (s : S) (r : Ret) : (returned s r).bscript = s.bscript := by
+  unfold returned; split <;> rfl
+theorem bs_bodyStep {s : S} (h : s.bscript = []) : (bodyStep s).bscript = [] := by
+  unfold bodyStep; split
+  · rw [bs_returned]; exact h
+  · rename_i e; rw [h] at e; cases e
+  · rename_i e; rw [h] at e; cases e
+theorem bs_bodyOf {s : S} (h : s.bscript = []) (c : Fid) : (bodyOf s c).bscript = [] := by
+  unfold bodyOf
+  split
+  · exact h
+  · split <;> (rw [bs_returned]; exact h)
+  · split <;> (rw [bs_returned]; exact h)
+  · rw [bs_returned]; exact h
+  · exact bs_bodyStep h
+theorem bs_dispatch {s : S} (h : s.bscript = []) : (dispatch s).bscript = [] := by
+  unfold dispatch; split
+  · exact bs_bodyOf (by exact h) _
+  · exact h
+theorem bs_afterUpdate {s : S} (h : s.bscript = []) : (afterUpdate s).bscript = [] := bs_dispatch (by exact h)
+theorem bs_afterDrain {s : S} (h : s.bscript = []) (c : Cont) : (afterDrain s c).bscript = [] := by
+  cases c with
+  | run f => exact h
+  | kill f => exact h
+  | pass1 =>
+    simp only [afterDrain]
+    split
+    · exact bs_afterUpdate h
+    · split
+      · exact h
+      · exact h
+      · exact bs_afterUpdate (by exact h)
+      · exact bs_afterUpdate h
+  | pass2 c => exact bs_afterUpdate (by exact h)
+  | brun g => exact bs_bodyStep (s := brunPre s g) h
+  | bkill g => exact bs_bodyStep (s := bkillPre s g) h
+theorem bs_mainAtomic (s : S) : (mainAtomic s).bscript = s.bscript := by
+  unfold mainAtomic; split <;> rfl
+theorem bs_mainPlain {s : S} (h : s.bscript = []) : (mainPlain s).bscript = [] := by
+  unfold mainPlain
+  split
+  · rename_i c _
+    cases c with
+    | next t => simp only [startCall]; unfold startNext; split <;> exact h
+    | run f => exact h
+    | kill f => exact h
+  · split
+    · exact bs_dispatch h
+    · exact h
+  · split
+    · exact h
+    · exact bs_afterDrain h _
+  · exact h
+  · refine bs_afterUpdate ?_
+    unfold resetPriv; split <;> exact h
+  · split
+    · exact h
+    · rw [bs_returned]; exact h
+  · exact h
+  · exact h
+  · exact h
+
+theorem afterBody_returned (s : S) (r : Ret) : AfterBody (returned s r).mpc := by
+  unfold returned; split <;> trivial
+theorem afterBody_bodyStep {s : S} (h : s.bscript = []) : AfterBody (bodyStep s).mpc := by
+  unfold bodyStep; split
+  · exact afterBody_returned _ _
+  · rename_i e; rw [h] at e; cases e
+  · rename_i e; rw [h] at e; cases e
+theorem afterBody_bodyOf {s : S} (h : s.bscript = []) (c : Fid) : AfterBody (bodyOf s c).mpc := by
+  unfold bodyOf
+  split
+  · trivial
+  · split <;> exact afterBody_returned _ _
+  · split <;> exact afterBody_returned _ _
+  · exact afterBody_returned _ _
+  · exact afterBody_bodyStep h
+theorem afterBody_dispatch {s : S} (h : s.bscript = []) : AfterBody (dispatch s).mpc := by
+  unfold dispatch; split
+  · exact afterBody_bodyOf (by exact h) _
+  · trivial
+theorem afterBody_afterUpdate {s : S} (h : s.bscript = []) : AfterBody (afterUpdate s).mpc := afterBody_dispatch (by exact h)
 
 theorem mono_bodyOf (s : S) (c : Fid) : ∀ x ∈ s.trace, x ∈ (bodyOf s c).trace := by
   intro x hx
@@ -43,6 +141,7 @@ theorem mono_bodyOf (s : S) (c : Fid) : ∀ x ∈ s.trace, x ∈ (bodyOf s c).tr
     · exact mono_returned _ _ x (List.mem_append_left _ (List.mem_append_left _ hx))
     · exact mono_returned _ _ x (List.mem_append_left _ hx)
   · exact mono_returned _ _ x hx
+  · exact mono_bodyStep _ x hx
 
 theorem runq_bodyOf (s : S) (c : Fid) : (bodyOf s c).k.runq = s.k.runq := by
   unfold bodyOf
@@ -53,9 +152,10 @@ theorem runq_bodyOf (s : S) (c : Fid) : (bodyOf s c).k.runq = s.k.runq := by
     · rw [returned_runq]; simp only [tok_k]; rw [runq_fibreTimeout, runq_fibreTimeout]
     · rw [returned_runq]; simp only [tok_k]; rw [runq_fibreTimeout]
   · rw [returned_runq]
+  · rw [bodyStep_runq]
 
 /-- the pop and the dispatch -/
-theorem pi_afterUpdate {c : Fid} {r : List Fid} {t : S} (h : ∃ l, t.k.runq = c :: (r ++ l)) :
+theorem pi_afterUpdate {c : Fid} {r : List Fid} {t : S} (h : ∃ l, t.k.runq = c :: (r ++ l)) (hbs : t.bscript = []) :
     PostPop (afterUpdate t).mpc ∧ Tok.disp c ∈ (afterUpdate t).trace ∧ ∃ l, (afterUpdate t).k.runq = r ++ l := by
   obtain ⟨l, hl⟩ := h
   obtain ⟨l', e, _, _⟩ := handleTimerq_prefix t.k
@@ -65,7 +165,7 @@ theorem pi_afterUpdate {c : Fid} {r : List Fid} {t : S} (h : ∃ l, t.k.runq = c
     · rename_i e'; rw [hrq] at e'; cases e'
     · rename_i f' r' e'; rw [hrq] at e'; cases e'; rfl
   have hpost : PostPop (afterUpdate t).mpc := by
-    have := afterBody_afterUpdate t
+    have := afterBody_afterUpdate hbs
     cases hm : (afterUpdate t).mpc <;> rw [hm] at this <;> first | exact False.elim this | trivial
   refine ⟨hpost, ?_, ?_⟩
   · unfold afterUpdate dispatch
@@ -80,36 +180,38 @@ theorem pi_afterUpdate {c : Fid} {r : List Fid} {t : S} (h : ∃ l, t.k.runq = c
     rw [runq_bodyOf]
     exact ⟨l ++ l', rfl⟩
 
-theorem pi_of_post {c : Fid} {r : List Fid} {s' : S} (hp : PostPop s'.mpc) (h1 : Tok.disp c ∈ s'.trace) (h2 : ∃ l, s'.k.runq = r ++ l) :
-    PI c r s' :=
+theorem pi_of_post {c : Fid} {r : List Fid} {s' : S} (hp : PostPop s'.mpc) (h1 : Tok.disp c ∈ s'.trace) (h2 : ∃ l, s'.k.runq = r ++ l)
+    (hbs : s'.bscript = []) : PI c r s' :=
   ⟨Or.inr hp, fun hpre => by cases hm : s'.mpc <;> rw [hm] at hp hpre <;> first | exact False.elim hp | exact False.elim hpre,
-   fun _ => ⟨h1, h2⟩⟩
+   fun _ => ⟨h1, h2⟩, hbs⟩
 
-theorem pi_of_pre {c : Fid} {r : List Fid} {s' : S} (hp : PrePop s'.mpc) (h : ∃ l, s'.k.runq = c :: (r ++ l)) : PI c r s' :=
-  ⟨Or.inl hp, fun _ => h, fun hpost => by cases hm : s'.mpc <;> rw [hm] at hp hpost <;> first | exact False.elim hp | exact False.elim hpost⟩
+theorem pi_of_pre {c : Fid} {r : List Fid} {s' : S} (hp : PrePop s'.mpc) (h : ∃ l, s'.k.runq = c :: (r ++ l))
+    (hbs : s'.bscript = []) : PI c r s' :=
+  ⟨Or.inl hp, fun _ => h, fun hpost => by cases hm : s'.mpc <;> rw [hm] at hp hpost <;> first | exact False.elim hp | exact False.elim hpost,
+   hbs⟩
 
 theorem pi_mainAtomic {c : Fid} {r : List Fid} {s : S} (h : PI c r s) : PI c r (mainAtomic s) := by
   unfold mainAtomic
   split
-  · rename_i hpc; exact pi_of_pre trivial (h.pre (by rw [hpc]; trivial))
+  · rename_i hpc; exact pi_of_pre trivial (h.pre (by rw [hpc]; trivial)) h.bs
   · rename_i c' hpc
     have hp : PrePop s.mpc := by
       rcases h.pc with hp | hp
       · exact hp
       · rw [hpc] at hp; exact False.elim hp
-    exact pi_of_pre (by rw [hpc] at hp; exact hp) (h.pre hp)
+    exact pi_of_pre (by rw [hpc] at hp; exact hp) (h.pre hp) h.bs
   · rename_i c' hpc
     have hp : PrePop s.mpc := by
       rcases h.pc with hp | hp
       · exact hp
       · rw [hpc] at hp; exact False.elim hp
-    exact pi_of_pre (by rw [hpc] at hp; exact hp) (h.pre hp)
-  · rename_i hpc; exact pi_of_pre trivial (h.pre (by rw [hpc]; trivial))
-  · rename_i hpc; have := h.post (by rw [hpc]; trivial); exact pi_of_post trivial this.1 this.2
-  · rename_i hpc; have := h.post (by rw [hpc]; trivial); exact pi_of_post trivial this.1 this.2
+    exact pi_of_pre (by rw [hpc] at hp; exact hp) (h.pre hp) h.bs
+  · rename_i hpc; exact pi_of_pre trivial (h.pre (by rw [hpc]; trivial)) h.bs
+  · rename_i hpc; have := h.post (by rw [hpc]; trivial); exact pi_of_post trivial this.1 this.2 h.bs
+  · rename_i hpc; have := h.post (by rw [hpc]; trivial); exact pi_of_post trivial this.1 this.2 h.bs
   · rename_i hpc
     have := h.post (by rw [hpc]; trivial)
-    exact pi_of_post trivial (List.mem_append_left _ this.1) this.2
+    exact pi_of_post trivial (List.mem_append_left _ this.1) this.2 h.bs
   · exact h
 
 theorem runq_makeRunnable_tail {k : K} {c : Fid} {r l : List Fid} (g : Fid) (h : k.runq = c :: (r ++ l)) :
@@ -135,8 +237,8 @@ theorem pi_mainPlain {c : Fid} {r : List Fid} {s : S} (hr : Reach s) (h : PI c r
     | next t =>
       simp only [startCall]; unfold startNext
       split
-      · exact pi_of_pre trivial hrq
-      · exact pi_of_pre trivial hrq
+      · exact pi_of_pre trivial hrq h.bs
+      · exact pi_of_pre trivial hrq h.bs
     | run f => exact False.elim hp
     | kill f => exact False.elim hp
   · rename_i e hpc
@@ -147,7 +249,7 @@ theorem pi_mainPlain {c : Fid} {r : List Fid} {s : S} (hr : Reach s) (h : PI c r
       have := ((reach_inv2 hr).fast (by rw [hpc]; trivial)).1
       obtain ⟨l, e'⟩ := hrq
       rw [this] at e'; cases e'
-    · exact pi_of_pre trivial hrq
+    · exact pi_of_pre trivial hrq h.bs
   · rename_i c' hpc
     have hp : PrePop s.mpc := by
       rcases h.pc with hp | hp
@@ -155,53 +257,55 @@ theorem pi_mainPlain {c : Fid} {r : List Fid} {s : S} (hr : Reach s) (h : PI c r
       · rw [hpc] at hp; exact False.elim hp
     have hrq := h.pre hp
     rw [hpc] at hp hma
-    have hpass : PassCont c' := hp
+    have hpass : PreCont c' := hp
     split
     · obtain ⟨l, e⟩ := hrq
-      exact pi_of_pre hpass (runq_makeRunnable_tail _ e)
+      exact pi_of_pre hpass (runq_makeRunnable_tail _ e) h.bs
     · cases c' with
       | run f => exact False.elim hpass
       | kill f => exact False.elim hpass
       | pass1 =>
         simp only [afterDrain]
         split
-        · have := pi_afterUpdate (t := s) hrq; exact pi_of_post this.1 this.2.1 this.2.2
+        · have := pi_afterUpdate (t := s) hrq h.bs; exact pi_of_post this.1 this.2.1 this.2.2 (bs_afterUpdate h.bs)
         · split
-          · exact pi_of_pre trivial hrq
-          · exact pi_of_pre trivial hrq
+          · exact pi_of_pre trivial hrq h.bs
+          · exact pi_of_pre trivial hrq h.bs
           · rename_i cc _ _ _
-            have := pi_afterUpdate (c := c) (r := r) (t := { s with k := { s.k with priv := upd s.k.priv cc 0 } }) hrq
-            exact pi_of_post this.1 this.2.1 this.2.2
-          · have := pi_afterUpdate (t := s) hrq; exact pi_of_post this.1 this.2.1 this.2.2
+            have := pi_afterUpdate (c := c) (r := r) (t := { s with k := { s.k with priv := upd s.k.priv cc 0 } }) hrq h.bs
+            exact pi_of_post this.1 this.2.1 this.2.2 (bs_afterUpdate (by exact h.bs))
+          · have := pi_afterUpdate (t := s) hrq h.bs; exact pi_of_post this.1 this.2.1 this.2.2 (bs_afterUpdate h.bs)
+      | brun g => exact False.elim hpass
+      | bkill g => exact False.elim hpass
       | pass2 c2 =>
         obtain ⟨l, e⟩ := hrq
-        have := pi_afterUpdate (c := c) (r := r) (t := { s with k := makeRunnable s.k c2 }) (runq_makeRunnable_tail c2 e)
-        exact pi_of_post this.1 this.2.1 this.2.2
+        have := pi_afterUpdate (c := c) (r := r) (t := { s with k := makeRunnable s.k c2 }) (runq_makeRunnable_tail c2 e) h.bs
+        exact pi_of_post this.1 this.2.1 this.2.2 (bs_afterUpdate (by exact h.bs))
   · rename_i c' hpc
     have hp : PrePop s.mpc := by
       rcases h.pc with hp | hp
       · exact hp
       · rw [hpc] at hp; exact False.elim hp
-    exact pi_of_pre (by rw [hpc] at hp; exact hp) (h.pre hp)
+    exact pi_of_pre (by rw [hpc] at hp; exact hp) (h.pre hp) h.bs
   · rename_i hpc
     have hrq := h.pre (by rw [hpc]; trivial)
     have e1 : (resetPriv s).k.runq = s.k.runq := by unfold resetPriv; split <;> rfl
-    have := pi_afterUpdate (c := c) (r := r) (t := resetPriv s) (by rw [e1]; exact hrq)
-    exact pi_of_post this.1 this.2.1 this.2.2
+    have := pi_afterUpdate (c := c) (r := r) (t := resetPriv s) (by rw [e1]; exact hrq) (by unfold resetPriv; split <;> exact h.bs)
+    exact pi_of_post this.1 this.2.1 this.2.2 (bs_afterUpdate (by unfold resetPriv; split <;> exact h.bs))
   · rename_i hpc
     have hpo := h.post (by rw [hpc]; trivial)
     split
-    · exact pi_of_post trivial (List.mem_append_left _ hpo.1) hpo.2
+    · exact pi_of_post trivial (List.mem_append_left _ hpo.1) hpo.2 h.bs
     · have hm : PostPop (returned s .waiting).mpc := by
         have := afterBody_returned s .waiting
         cases hmm : (returned s .waiting).mpc <;> rw [hmm] at this <;> first | exact False.elim this | trivial
-      exact pi_of_post hm (mono_returned s _ _ hpo.1) (by rw [returned_runq]; exact hpo.2)
+      exact pi_of_post hm (mono_returned s _ _ hpo.1) (by rw [returned_runq]; exact hpo.2) (by rw [bs_returned]; exact h.bs)
   · rename_i hpc
     have hpo := h.post (by rw [hpc]; trivial)
-    exact pi_of_post trivial hpo.1 hpo.2
+    exact pi_of_post trivial hpo.1 hpo.2 h.bs
   · rename_i e hpc
     have hpo := h.post (by rw [hpc]; trivial)
-    exact pi_of_post trivial hpo.1 hpo.2
+    exact pi_of_post trivial hpo.1 hpo.2 h.bs
   · exact h
 
 /-! ### the trace only grows -/
@@ -237,6 +341,10 @@ theorem mono_afterDrain (s : S) (c : Cont) : TraceMono s (afterDrain s c) := by
         exact TraceMono.trans (b := { s with k := { s.k with priv := upd s.k.priv cc 0 } }) (traceMono_of_eq rfl) (mono_afterUpdate _)
       · exact mono_afterUpdate s
   | pass2 c => exact TraceMono.trans (b := { s with k := makeRunnable s.k c }) (traceMono_of_eq rfl) (mono_afterUpdate _)
+  | brun g =>
+    exact TraceMono.trans (b := brunPre s g) (fun x hx => List.mem_append_left _ hx) (mono_bodyStep _)
+  | bkill g =>
+    exact TraceMono.trans (b := bkillPre s g) (fun x hx => List.mem_append_left _ hx) (mono_bodyStep _)
 
 theorem mono_mainAtomic (s : S) : TraceMono s (mainAtomic s) := by
   unfold mainAtomic
@@ -276,7 +384,7 @@ theorem mono_mainPlain (s : S) : TraceMono s (mainPlain s) := by
 
 /-- what an uninterrupted pass that started with run queue `c :: r` ends with -/
 def PassDone (c : Fid) (r : List Fid) (s0 s' : S) : Prop :=
-  s'.hung = true ∨ (Reach s' ∧ s'.mpc = .idle ∧ Tok.disp c ∈ s'.trace ∧ TraceMono s0 s' ∧ ∃ l, s'.k.runq = r ++ l)
+  s'.hung = true ∨ (Reach s' ∧ s'.mpc = .idle ∧ Tok.disp c ∈ s'.trace ∧ TraceMono s0 s' ∧ (∃ l, s'.k.runq = r ++ l) ∧ s'.bscript = [])
 
 theorem pi_runMain {c : Fid} {r : List Fid} (cc : MCall) (s0 : S) :
     ∀ (fuel k : Nat) (s : S), Reach s → PI c r s → s.mpc ≠ .idle → TraceMono s0 s → PassDone c r s0 (runMain noGap cc fuel k s)
@@ -291,7 +399,7 @@ theorem pi_runMain {c : Fid} {r : List Fid} (cc : MCall) (s0 : S) :
     · rename_i hidle
       have hpo := hpi1.post (by rw [hidle]; trivial)
       refine Or.inr ⟨Reach.tok _ (Reach.nops k hr1), hidle, List.mem_append_left _ hpo.1,
-        fun x hx => List.mem_append_left _ (hm1 x hx), hpo.2⟩
+        fun x hx => List.mem_append_left _ (hm1 x hx), hpo.2, hpi1.bs⟩
     · rename_i hnidle
       have hni1 : (mainPlain s).mpc ≠ .idle := fun e => hnidle e
       exact pi_runMain cc s0 fuel (k + 1) _ (Reach.mainAtomic hr1) (pi_mainAtomic hpi1) (mainAtomic_not_idle _ hni1)
@@ -299,13 +407,14 @@ theorem pi_runMain {c : Fid} {r : List Fid} (cc : MCall) (s0 : S) :
 
 /-- **one uninterrupted pass dispatches the head of the run queue; the rest of the queue moves up, new entries join at
     the tail** -/
-theorem pass_dispatches_head {s : S} (hr : Reach s) (c : Fid) (r : List Fid) (hrq : s.k.runq = c :: r) (t : BitVec 32) :
+theorem pass_dispatches_head {s : S} (hr : Reach s) (c : Fid) (r : List Fid) (hrq : s.k.runq = c :: r) (hbs : s.bscript = [])
+    (t : BitVec 32) :
     PassDone c r s (callMain noGap (.next t) s) := by
   unfold callMain
   split
   · rename_i hidle
     refine pi_runMain (.next t) s _ _ _ (Reach.enterMain _ hr hidle) ?_ (by intro e; cases e) (traceMono_of_eq rfl)
-    exact pi_of_pre trivial ⟨[], by simp [enterMain, hrq]⟩
+    exact pi_of_pre trivial ⟨[], by simp [enterMain, hrq]⟩ hbs
   · exact Or.inl rfl
 
 /-- uninterrupted passes at the times `ts`, without any other stimulus -/
@@ -348,8 +457,8 @@ theorem mono_passes : ∀ (ts : List (BitVec 32)) (s : S), TraceMono s (passes t
     passes of `fibre_scheduler_next` (whatever their times), without any further stimulus — provided the runner is not cut
     for lack of fuel -/
 theorem fifo_dispatch : ∀ (i : Nat) (s : S) (f : Fid) (ts : List (BitVec 32)), Reach s → s.k.runq[i]? = some f →
-    ts.length = i + 1 → (passes ts s).hung = false → Tok.disp f ∈ (passes ts s).trace
-  | 0, s, f, ts, hr, hf, hlen, hh => by
+    s.bscript = [] → ts.length = i + 1 → (passes ts s).hung = false → Tok.disp f ∈ (passes ts s).trace
+  | 0, s, f, ts, hr, hf, hbs, hlen, hh => by
     match ts, hlen with
     | [t], _ =>
       cases hrq : s.k.runq with
@@ -358,11 +467,11 @@ theorem fifo_dispatch : ∀ (i : Nat) (s : S) (f : Fid) (ts : List (BitVec 32)),
         rw [hrq] at hf
         simp only [List.getElem?_cons_zero, Option.some.injEq] at hf
         subst hf
-        rcases pass_dispatches_head hr c r hrq t with e | ⟨_, _, hd, _, _⟩
+        rcases pass_dispatches_head hr c r hrq hbs t with e | ⟨_, _, hd, _, _⟩
         · have : (passes [t] s).hung = true := e
           rw [hh] at this; cases this
         · exact hd
-  | i + 1, s, f, ts, hr, hf, hlen, hh => by
+  | i + 1, s, f, ts, hr, hf, hbs, hlen, hh => by
     match ts, hlen with
     | t :: ts', hlen' =>
       cases hrq : s.k.runq with
@@ -370,12 +479,12 @@ theorem fifo_dispatch : ∀ (i : Nat) (s : S) (f : Fid) (ts : List (BitVec 32)),
       | cons c r =>
         rw [hrq] at hf
         have hf' : r[i]? = some f := by simpa using hf
-        rcases pass_dispatches_head hr c r hrq t with e | ⟨hr1, _, _, _, l, hl⟩
+        rcases pass_dispatches_head hr c r hrq hbs t with e | ⟨hr1, _, _, _, ⟨l, hl⟩, hbs1⟩
         · have : (passes (t :: ts') s).hung = true := hung_passes ts' _ e
           rw [hh] at this; cases this
         · have hi : i < r.length := (List.getElem?_eq_some_iff.mp hf').1
           have hf1 : (callMain noGap (.next t) s).k.runq[i]? = some f := by
             rw [hl, List.getElem?_append_left hi]; exact hf'
-          exact fifo_dispatch i _ f ts' hr1 hf1 (by simpa using hlen') hh
+          exact fifo_dispatch i _ f ts' hr1 hf1 hbs1 (by simpa using hlen') hh
 
 end Librfn.Isr.L
